@@ -523,6 +523,7 @@ func startStack(engine string, eps []epSpec) (*stk, error) {
 		cfg.Server.RateLimits.PerIPRequestsPerMinute = 0
 		cfg.Server.RateLimits.HealthRequestsPerMinute = 0
 		cfg.Server.RateLimits.BurstSize = 0
+		stack.ApplyVary(cfg, stack.VaryFor("c15", engine, len(eps))) // settings no property mentions (scratch directories live in the run directory)
 		cfg.Proxy.Engine = engine
 		cfg.Proxy.LoadBalancer = "priority"
 		cfg.Discovery.ModelDiscovery.Enabled = true
